@@ -218,3 +218,59 @@ def run_docs(payload):
             o["raised"] = f"{type(ex).__name__}: {ex}"
         res.append(o)
     return res
+
+
+# ---------------------------------------------------------------- ResolveGeneric.tla: user-supplied resolvers
+GEN_SYM = {"full": {"k": "fc", "rv": "r1", "pg": 10, "pl": ["a"], "df": ["b"], "ag": "-", "nm": [], "pin": -1, "id": ""},
+           "short": {"k": "sc", "rv": "r1", "pg": -2, "pl": [], "df": [], "ag": "b", "nm": [], "pin": -1, "id": ""},
+           "supra": {"k": "su", "rv": "", "pg": -2, "pl": [], "df": [], "ag": "b", "nm": [], "pin": -1, "id": ""},
+           "ref": {"k": "rf", "rv": "", "pg": -2, "pl": [], "df": [], "ag": "-", "nm": [["b"]], "pin": -1, "id": ""},
+           "id": {"k": "id", "rv": "", "pg": -2, "pl": [], "df": [], "ag": "-", "nm": [], "pin": -1, "id": ""},
+           "unknown": {"k": "un", "rv": "", "pg": -2, "pl": [], "df": [], "ag": "-", "nm": [], "pin": -1, "id": ""}}
+RES_OBJ = {-1: None, 0: "", 1: "R1", 2: "R2"}        # 0: a falsy resource object
+RES_VAL = {None: -1, "": 0, "R1": 1, "R2": 2}
+
+
+def run_generic(payload):
+    """items: {k: [kind...], o: [outcome...]}: resolve_citations with table-driven callbacks that return
+    o[position] and log what they were handed"""
+    from eyecite.resolve import resolve_citations
+    res = []
+    for it in payload["items"]:
+        kinds, outs = it["k"], it["o"]
+        objs = [make(GEN_SYM[k], i) for i, k in enumerate(kinds)]
+        pos = {id(c): i + 1 for i, c in enumerate(objs)}
+        recs = [{"ncalls": 0, "n": -1, "list": [], "last": -1} for _ in kinds]
+
+        def outcome(c):
+            return RES_OBJ[outs[pos[id(c)] - 1]]
+
+        def r_full(c):
+            r = recs[pos[id(c)] - 1]
+            r["ncalls"] += 1
+            r["n"] = 0
+            return outcome(c)
+
+        def r_list(c, rfc):
+            r = recs[pos[id(c)] - 1]
+            r["ncalls"] += 1
+            r["n"] = len(rfc)
+            r["list"] = [[pos.get(id(f), 0), RES_VAL.get(x, -9)] for f, x in rfc]
+            return outcome(c)
+
+        def r_id(c, last, resolutions):
+            r = recs[pos[id(c)] - 1]
+            r["ncalls"] += 1
+            r["last"] = RES_VAL.get(last, -9)
+            return outcome(c)
+        o = {"k": kinds, "o": outs, "recs": recs, "g": [], "r": ""}
+        try:
+            out = resolve_citations(objs, resolve_full_citation=r_full, resolve_shortcase_citation=r_list,
+                                    resolve_supra_citation=r_list, resolve_reference_citation=r_list,
+                                    resolve_id_citation=r_id)
+            o["g"] = [{"key": RES_VAL.get(k, -9), "m": [pos.get(id(c), 0) for c in v]} for k, v in out.items() if v]
+            o["empty_keys"] = sum(1 for v in out.values() if not v)
+        except Exception as ex:  # noqa: BLE001
+            o["r"] = f"{type(ex).__name__}: {ex}"[:200]
+        res.append(o)
+    return res
